@@ -3,4 +3,5 @@ package all
 
 import (
 	_ "verif/harness/c01"
+	_ "verif/harness/c02"
 )
